@@ -1,5 +1,5 @@
 # Prose for MANIFEST.json (kept next to the registry so both change together).
-HOOK_COMMITS = ['cc90e8e', '79f97e5']
+HOOK_COMMITS = ['0e3f45b', '5d5e67b', 'cc90e8e', '79f97e5']
 NOTES = ("All checks are property-based tests / fuzzers: rapidcheck harnesses (props/*.cpp) and libFuzzer targets (fuzz/*.cpp) "
          "with explicit oracles, run by ./verif, which rebuilds libpixman from /repo's working tree (variants plain, asan, tsan) "
          "on every invocation. Genuine defects found are listed in known_findings.json (fixed by 'fix:' commits in /repo, or "
@@ -109,3 +109,10 @@ META["C13"] = dict(
     text=("Generated stop lists/geometries/repeats/transforms; every pixel compared with the range of a long-double reference over "
           "the admissible parameter interval; degenerate and hostile inputs run under ASan with a watchdog."),
     note="Trusted: the reference in props/gradients.cpp; tolerance rules listed in the assumptions.")
+META["C17"] = dict(
+    technique="stateful / model-based property-based testing (rapidcheck) of the glyph cache with a watchdog, on a small-table hook build and the real constants; differential test of glyph drawing vs. per-glyph compositing",
+    design_ref="§4 C17",
+    text=("Generated cache histories checked step by step against a map + recency-list model (small hook table under ASan, real "
+          "table, and the real capacity limit); generated glyph runs drawn through both entry points and compared with the "
+          "compositions the statement names."),
+    note="Trusted: the model in props/glyphs.cpp; hook 3 (table size). Found and fixed: S11.")
